@@ -345,7 +345,8 @@ def stub_memory_content(w, S1, S2, A1, A2):
     mem = {}
     ww = w.bit_length() - 1
     off = w.bit_length()
-    for base, seed in ((S1, 3), (S2, 0x51), (A1, 0x90), (A2, 0x17)):
+    H1 = (1 << (w - 1)) + 64 * w  # a framebuffer / palette whose bit address has the top bit of the word set
+    for base, seed in ((S1, 3), (S2, 0x51), (A1, 0x90), (A2, 0x17), (H1, 0x2B)):
         for i in range(24):
             jw = ((base + i * 2 * w) >> ww) + 1
             mem[jw] = (((seed + 37 * i) & 0xFF) << off) | 1
@@ -392,6 +393,10 @@ def command_alphabet(w, tier):
         others.append(('pal', [2] + le(a, ab)))
     for a in (S1, S2):
         others.append(('upd', [3] + le(a, ab)))
+    H1 = (1 << (w - 1)) + 64 * w
+    others.append(('updH', [3] + le(H1, ab)))
+    others.append(('palH', [2] + le(H1, ab)))
+    others.append(('rectH', [4] + le(0, 2) + le(0, 2) + le(1, 2) + le(1, 2) + le(H1, ab)))
     for (x, y, rw, rh) in [(0, 0, 1, 1), (1, 0, 1, 1), (0, 0, 2, 1), (1, 1, 2, 1), (2, 1, 1, 1), (0, 0, 0, 0), (3, 0, 1, 1), (0, 2, 1, 1),
                            (1, 0, 2, 2), (0, 1, 3, 1), (2, 0, 2, 1), (0, 0, 3, 2)]:
         others.append(('rect', [4] + le(x, 2) + le(y, 2) + le(rw, 2) + le(rh, 2) + le(S1, ab)))
